@@ -87,7 +87,7 @@ contract(ML, "LazyPool.__exit__", props=["C13", "C07"],
     raises={"PASSED": [("C07", "lp_idle(self)")]})
 
 contract(ML, "LazyPool.imap_unordered", props=["C13", "C07", "C14", "C02"],
-    summary=dict(result="LAZYS(func, stream(iterable), self._threads)",
+    summary=dict(exact=True, result="LAZYS(func, stream(iterable), self._threads)",
                  fails_only_if="FAILS(MAPS(func, stream(iterable)))"),
     params={"func": "func", "iterable": "iter"}, generator=True,
     requires=["lp_idle(self)", "self._threads >= 1",
